@@ -430,3 +430,11 @@ def test_fixed_F44_undiscounted_multichain_pi_policy_rows():
     R = {(0, 'a'): -2.0, (0, 'b'): -1.0, (1, 'a'): -1.0, (1, 'b'): 0.0, (2, 'a'): 0.0, (2, 'b'): -3.0}
     res = MultichainPolicyIteration().plan_on(Dict2MDP(T, R, {0: 1.0}, absorbing=[3], gamma=1.0))
     assert res.converged and not np.isnan(np.array(res.policy)).any()
+
+
+def test_fixed_F46_marginalising_by_name_leaves_the_rows_alone():
+    from msdm.core.distributions import DiscreteFactorTable as Pr
+    p = Pr([{'x': 0, 'y': 0}, {'x': 0, 'y': 1}, {'x': 1, 'y': 1}], probs=[.25, .25, .5])
+    q = Pr([{'y': 0, 'z': 0}, {'y': 1, 'z': 1}], probs=[.5, .5])
+    p['x']
+    assert sorted((p & q).support[0]) == ['x', 'y', 'z']
